@@ -75,18 +75,25 @@ claim('C17', 'proof',
       'DESIGN.md 4 C17')
 
 claim('C13', 'proof',
-      'Lean 4 theorems on py2lean-generated to_dict/from_dict/to_array/from_array/__copy__/__eq__ compositions (14 classes) + exact round-trip oracle on all 21 types',
+      'Lean 4 theorems on py2lean-generated to_dict/from_dict/to_array/from_array/__copy__/__eq__ compositions (14 simple classes) and on a literal model of the 7 composite classes and the dict dispatcher + model/code correspondence; exact round-trip oracle on all 21 types',
       'The translator symbolically executes from_dict(to_dict(x)), from_array(to_array(x)), '
       'duplicate() and x == y of the real classes; 196 theorems state that the round trips are '
       'the identity on the defining slots (unit-vector fields up to re-normalisation, made '
       'explicit), that duplicate() is the identity (unconditionally for Plane after the repair), '
       'that == is exactly equality of the defining fields (reflexive, symmetric, transitive, '
       'any differing coordinate gives False) and that equal keys hash equal for any hash '
-      'function. Composite types (polygons, polylines, meshes, faces, polyfaces), JSON text, '
-      'the dispatcher and optional fields are decided by a bit-exact oracle on the real code.',
-      'Trusted: Lean kernel, py2lean, harness. The key tuples used for hashing are hand-written '
-      'mirrors of __key (tied by the oracle); list-valued classes are oracle-only; a stub '
-      'ladybug.color module is used for mesh colours.',
+      'function. Model/SerialComposite transcribes __init__ (asserts), to_dict, from_dict, '
+      'to_array, from_array, __copy__, __key of Polygon2D, Polyline2D/3D, Mesh2D/3D, Face3D, '
+      'Polyface3D over a JSON-like value type (key presence, type strings, optional/null keys) '
+      'and dictutil.geometry_dict_to_object; 71 theorems: round trips return the same defining '
+      'data under exactly the constructor guards (and raise where it raises), == is an '
+      'equivalence equal to same-class-and-equal-key, different classes never compare equal, '
+      'the dispatcher agrees with the class from_dict on the 21 registered names and rejects '
+      'the rest. JSON text and bit-exactness are decided by the oracle on the real code.',
+      'Trusted: Lean kernel, py2lean, harness, model correspondence (composite model is hand '
+      'written). Face3D round trip with a plane computed from the vertices assumes the plane is '
+      'valid (proved only for a given plane); Color (de)serialisation and '
+      'from_shape_with_holes are uninterpreted; a stub ladybug.color module is used.',
       'DESIGN.md 4 C13')
 claim('C14', 'proof',
       'Lean 4 checked certificate over an effect table regenerated from the source (decide +kernel) + dynamic snapshot oracle across hash seeds and clocks',
@@ -154,18 +161,24 @@ claim('C06', 'proof',
       '_plane_from_vertices loop and hole merging are hand models.',
       'DESIGN.md 4 C06')
 claim('C05', 'proof',
-      'Lean 4 theorems on the generated earcut predicates + tiling algebra; executable Lean triangulation certificate (Spec/TriCert) applied to the real earcut output',
+      'Lean 4 theorems on the generated earcut predicates and on a literal model of the ear-clipping loop (provenance, orientation, area conservation by induction over the run) + model/code correspondence; Lean triangulation certificate (Spec/TriCert) on the real output',
       'Proved for every input: the generated _area/_point_in_triangle/_equals/_intersects '
       'kernels (sign/orientation characterisations, incl. the repaired chained comparison), the '
       'ear-removal / chord-split / hole-bridge additivity of the shoelace functional (a clipped '
-      'ear sequence sums to the polygon area), the fan shortcut for convex input. The linked-list '
-      'ear clipper (z-order hashing, cure/split fall-backs, hole elimination order) is NOT '
-      'modelled: each triangulation returned by the real code is certified clause by clause '
+      'ear sequence sums to the polygon area), the fan shortcut for convex input. Model/Earcut is '
+      'a literal model of earcut() incl. filter/cure/split passes and hole elimination, agreeing '
+      'with the real code index for index (also on the hashed path); proved for every input and '
+      'fuel: emitted indices are input indices, every ear passed its test and is positively '
+      'oriented, emitted area + remaining ring = input ring at every step, so a clean run tiles '
+      '|boundary| - sum|holes| exactly; triangle count formula; fuel irrelevance. Every '
+      'triangulation returned by the real code is additionally certified clause by clause '
       '(provenance, orientation, strict edge incidence, exact area, centroids inside) by a Lean '
-      'specification run at Q and by its integer twin on every generated shape.',
-      'Trusted: Lean kernel, py2lean, harness, Spec/TriCert. Partial: termination and global '
-      'correctness of ear clipping are not theorems. Two open findings (T-junction at a vertex '
-      'collinear with a hole bridge; fan shortcut with a straight corner at vertex 0).',
+      'specification run at Q and by its integer twin.',
+      'Trusted: Lean kernel, py2lean, harness, model correspondence, Spec/TriCert. Not proved: '
+      'that a valid input always gives a clean run, no-overlap / inside-the-shape (per-output '
+      'certificate only), hashed == unhashed ear test. Two open findings (T-junction at a vertex '
+      'collinear with a hole bridge - reproduced on the model; fan shortcut with a straight '
+      'corner at vertex 0).',
       'DESIGN.md 4 C05')
 claim('C07', 'proof',
       'Lean 4 theorems on a literal model of Polyface3D edge bookkeeping (loop invariant, induction over faces) + model/code correspondence; volume sign algebra; oracle on the real code',
